@@ -286,9 +286,86 @@ def detect_ways(ctx, kind, sample, data, tmp):
             ctx.oracle_cases += 1
             ctx.count("detect:" + way)
             ctx.case((kind.name, sample, "detect", lab, way))
+            if way == "file":
+                # the same bytes behind a file object whose OWN name carries no extension, with the real name given
+                # explicitly: the explicit filename is what detection goes by
+                anon = os.path.join(tmp, "anon_%d" % (ctx.oracle_cases % 7))
+                shutil.copyfile(path, anon)
+                with open(anon, "rb") as h:
+                    try:
+                        o = mutagen.File(h, filename=path)
+                        r2 = type(o).__name__
+                    except mutagen.MutagenError:
+                        r2 = "MutagenError"
+                    except Exception as e:
+                        r2 = "EXC:" + type(e).__name__
+                if r2 != ref:
+                    ctx.violation("oracle", "C17 %s: mutagen.File(fileobj, filename=...) on the %sfile gives %s but %s through its str path (the file object has an extension-less name of its own)" % (kind.name, lab, r2, ref),
+                                  {"runner": "c17.ways", "kind": kind.name, "sample": sample, "way": "detect-fileobj+filename"})
             if r != ref:
                 ctx.violation("oracle", "C17 %s: mutagen.File on the %sfile gives %s through %s but %s through its str path" % (kind.name, lab, r, way, ref),
                               {"runner": "c17.ways", "kind": kind.name, "sample": sample, "way": "detect-" + way})
+
+
+def flac_small_deleteid3(ctx, tmp):
+    """FLAC.save(deleteid3=True) on streams smaller than an ID3v1 tag (and on one wrapped in ID3v2 + ID3v1), through every
+    way of passing the file: same outcome, same bytes"""
+    from mutagen.flac import FLAC
+    kind = KINDS["FLAC"]
+    base = [d for s_, d in kind.samples() if d[:4] == b"fLaC"]
+    if not base:
+        return
+    si = base[0][8:8 + 34]
+    tiny = b"fLaC" + bytes([0x80]) + (34).to_bytes(3, "big") + si + b"\xff\xf8\x00\x00\x01\x02"
+    from fam import synth
+    wrapped = synth.simple_id3() + tiny + b"\xff\xf8" + bytes(200) + synth.id3v1()
+    for label, data in (("tiny", tiny), ("id3v2+flac+id3v1", wrapped)):
+        res = {}
+        for way in ("bytesio", "str", "path", "file", "min_clamp", "min_raise", "kw_fileobj"):
+            fn = os.path.join(tmp, "small_%s.flac" % way)
+            with open(fn, "wb") as h:
+                h.write(data)
+            fobj = None
+            try:
+                if way in ("bytesio", "kw_fileobj"):
+                    fobj = io.BytesIO(data)
+                elif way.startswith("min_"):
+                    fobj = Minimal(data, way[4:])
+                elif way == "file":
+                    fobj = open(fn, "rb+")
+                thing = fobj if fobj is not None else (pathlib.Path(fn) if way == "path" else fn)
+
+                def call(f, **kw):
+                    if fobj is not None:
+                        fobj.seek(0)
+                        return f(fileobj=fobj, **kw) if way == "kw_fileobj" else f(fobj, **kw)
+                    return f(thing, **kw)
+                o = call(FLAC)
+                o["title"] = ["t"]
+                call(o.save, deleteid3=True, padding=lambda i: 0)
+                if fobj is not None and hasattr(fobj, "getvalue"):
+                    out = fobj.getvalue()
+                else:
+                    if fobj is not None:
+                        fobj.flush()
+                    with open(fn, "rb") as h:
+                        out = h.read()
+                res[way] = ("ok", out)
+            except mutagen.MutagenError:
+                res[way] = ("MutagenError",)
+            except Exception as e:
+                res[way] = ("EXC:" + type(e).__name__, str(e)[:60])
+            finally:
+                if way == "file" and fobj is not None:
+                    fobj.close()
+            ctx.oracle_cases += 1
+            ctx.count("flac-small-deleteid3")
+            ctx.case(("flac-small", label, way))
+        ref = res["bytesio"]
+        for way, r in res.items():
+            if r != ref or r[0].startswith("EXC"):
+                ctx.violation("oracle", "C17 FLAC: save(deleteid3=True) on a %s stream gives %s through %s but %s through an in-memory stream" % (
+                    label, r[0], way, ref[0]), {"runner": "c17.ways", "kind": "FLAC", "sample": "small:" + label, "way": way, "got": repr(r)[:120], "ref": repr(ref)[:120]})
 
 
 def format_oracle(ctx, kinds=None, max_size=200000):
@@ -328,6 +405,8 @@ def format_oracle(ctx, kinds=None, max_size=200000):
                         what = "result class" if r[0] != ref[0] else ("tags" if r[1] != ref[1] else "final bytes")
                         ctx.violation("oracle", "C17 %s: %s through %s differ from the in-memory stream" % (kname, what, way),
                                       {"runner": "c17.ways", "kind": kname, "sample": sample, "way": way, "got": repr(r[:2])[:200], "ref": repr(ref[:2])[:200]})
+        if not kinds or "FLAC" in kinds:
+            flac_small_deleteid3(ctx, tmp)
         ctx.notes["attributes_requested_from_minimal_object"] = sorted(asked)
     finally:
         shutil.rmtree(tmp, ignore_errors=True)
